@@ -53,24 +53,24 @@ func ParseJWT(data []byte) (*JWT, error) {
 }
 
 func (j JWT) HeaderAttributes() []Attribute {
-	var attrs []Attribute
-	for k, v := range j.Header {
-		if param, ok := jwtParams[k]; ok {
-			if value := param.convert(v); value != "" {
-				attrs = append(attrs, Attribute{Name: param.description, Value: value})
-			}
-		}
-	}
-	return attrs
+	return jwtAttributes(j.Header)
 }
 
 func (j JWT) PayloadAttributes() []Attribute {
+	return jwtAttributes(j.Payload)
+}
+
+// jwtAttributes lists the registered parameters present in m in a fixed order (map iteration order is random).
+func jwtAttributes(m map[string]any) []Attribute {
 	var attrs []Attribute
-	for k, v := range j.Payload {
-		if param, ok := jwtParams[k]; ok {
-			if value := param.convert(v); value != "" {
-				attrs = append(attrs, Attribute{Name: param.description, Value: value})
-			}
+	for _, k := range jwtParamOrder {
+		v, present := m[k]
+		if !present {
+			continue
+		}
+		param := jwtParams[k]
+		if value := param.convert(v); value != "" {
+			attrs = append(attrs, Attribute{Name: param.description, Value: value})
 		}
 	}
 	return attrs
@@ -101,6 +101,12 @@ var jwtParams = map[string]jwtParam{
 	"jti": {"JWT Id", str},
 	"nbf": {"Not Before", unixTime},
 	"sub": {"Subject", str},
+}
+
+// jwtParamOrder is the order in which registered parameters are displayed.
+var jwtParamOrder = []string{
+	"alg", "typ", "jku", "jwk", "kid", "x5u", "x5c", "x5t", "x5t#S256",
+	"aud", "exp", "iat", "iss", "jti", "nbf", "sub",
 }
 
 func sigAlg(o any) string {
